@@ -106,6 +106,14 @@ fn unary(rec: &mut Rec, r: &Rectangle, sizes: &[(u32, u32)], offs: &[i32]) {
 }
 
 fn run_case(rec: &mut Rec, d: &Value) {
+    // a panic inside a Rectangle method is recorded (the events of the case so far are kept)
+    if let Err(p) = catch(|| run_case_inner(rec, d)) {
+        rec.note("panicked_cases");
+        rec.ev("panic", json!({"msg": p.msg, "loc": p.loc}));
+    }
+}
+
+fn run_case_inner(rec: &mut Rec, d: &Value) {
     match d["k"].as_str().unwrap() {
         // (G) one grid rectangle printed by MC_C16: all pairs with the grid + the unary battery
         "grid" => {
